@@ -635,7 +635,9 @@ Proof.
 Qed.
 
 (* no error of an expression, condition or statement is UnusedCaptures *)
-Definition plain_error (e : check_error) : Prop := ce_names e = [].
+Definition plain_error (e : check_error) : Prop := match e with CkUnusedCaptures _ _ => False | _ => True end.
+Lemma plain_names e : plain_error e -> ce_names e = [].
+Proof. destruct e; cbn; tauto. Qed.
 
 Lemma mapM_err_plain {A B} (f : A -> ck B) l e :
   Forall (fun x => forall e, f x = Err e -> plain_error e) l -> mapM f l = Err e -> plain_error e.
@@ -654,13 +656,13 @@ Qed.
 
 Lemma unscoped_check_add_plain cx env x l v m e : unscoped_check_add cx env x l v m = Err e -> plain_error e.
 Proof.
-  unfold unscoped_check_add. destruct (varmap_get (cx_globals cx) x); [intros [= <-]; reflexivity|].
-  destruct (varmap_add _ _ _ _); [discriminate|intros [= <-]; reflexivity].
+  unfold unscoped_check_add. destruct (varmap_get (cx_globals cx) x); [intros [= <-]; exact I|].
+  destruct (varmap_add _ _ _ _); [discriminate|intros [= <-]; exact I].
 Qed.
 Lemma unscoped_check_set_plain cx env x l v e : unscoped_check_set cx env x l v = Err e -> plain_error e.
 Proof.
-  unfold unscoped_check_set. destruct (varmap_get (cx_globals cx) x); [intros [= <-]; reflexivity|].
-  destruct (varmap_set _ _ _); [discriminate|intros [= <-]; reflexivity].
+  unfold unscoped_check_set. destruct (varmap_get (cx_globals cx) x); [intros [= <-]; exact I|].
+  destruct (varmap_set _ _ _); [discriminate|intros [= <-]; exact I].
 Qed.
 
 Lemma check_expr_err_plain cx e : forall env ce, check_expr cx env e = Err ce -> plain_error ce.
@@ -671,20 +673,20 @@ Proof.
   - rewrite check_expr_set in Hc. unfold check_elems in Hc. apply obind_err in Hc as [Hc|(a & _ & Hc)]; [|discriminate].
     eapply mapM_err_plain; [|exact Hc]. eapply Forall_impl; [|exact H]. intros a Ha ce'. apply Ha.
   - rewrite check_expr_listcomp in Hc. unfold check_comp in Hc. apply obind_err in Hc as [Hc|(a & _ & Hc)]; [eauto|].
-    destruct a as [v' vr]. cbv beta iota in Hc. destruct (negb (er_local vr)); [inversion Hc; reflexivity|].
-    destruct (negb (is_list_q (er_quant vr))); [inversion Hc; reflexivity|].
+    destruct a as [v' vr]. cbv beta iota in Hc. destruct (negb (er_local vr)); [inversion Hc; exact I|].
+    destruct (negb (is_list_q (er_quant vr))); [inversion Hc; exact I|].
     apply obind_err in Hc as [Hc|(lenv & _ & Hc)]; [eapply unscoped_check_add_plain; eassumption|].
     apply obind_err in Hc as [Hc|(b & _ & Hc)]; [eauto|]. destruct b; discriminate.
   - rewrite check_expr_setcomp in Hc. unfold check_comp in Hc. apply obind_err in Hc as [Hc|(a & _ & Hc)]; [eauto|].
-    destruct a as [v' vr]. cbv beta iota in Hc. destruct (negb (er_local vr)); [inversion Hc; reflexivity|].
-    destruct (negb (is_list_q (er_quant vr))); [inversion Hc; reflexivity|].
+    destruct a as [v' vr]. cbv beta iota in Hc. destruct (negb (er_local vr)); [inversion Hc; exact I|].
+    destruct (negb (is_list_q (er_quant vr))); [inversion Hc; exact I|].
     apply obind_err in Hc as [Hc|(lenv & _ & Hc)]; [eapply unscoped_check_add_plain; eassumption|].
     apply obind_err in Hc as [Hc|(b & _ & Hc)]; [eauto|]. destruct b; discriminate.
-  - cbn [check_expr] in Hc. unfold check_capture in Hc. destruct (name_index n (cx_stanza_names cx)); [|inversion Hc; reflexivity].
+  - cbn [check_expr] in Hc. unfold check_capture in Hc. destruct (name_index n (cx_stanza_names cx)); [|inversion Hc; exact I].
     destruct (name_index n (cx_file_names cx)); [|discriminate]. destruct (cx_file_quants cx) as [row|]; [|discriminate].
     destruct (nth_error row (N.to_nat n1)); discriminate.
   - cbn [check_expr] in Hc. apply obind_err in Hc as [Hc|(a & _ & Hc)]; [|discriminate]. unfold unscoped_check_get in Hc.
-    destruct (varmap_get (cx_globals cx) x); [discriminate|]. destruct (varmap_get env x); [discriminate|inversion Hc; reflexivity].
+    destruct (varmap_get (cx_globals cx) x); [discriminate|]. destruct (varmap_get env x); [discriminate|inversion Hc; exact I].
   - rewrite check_expr_scoped in Hc. apply obind_err in Hc as [Hc|(a & _ & Hc)]; [eauto|]. destruct a; discriminate.
   - rewrite check_expr_call in Hc. unfold check_elems in Hc. apply obind_err in Hc as [Hc|(a & _ & Hc)]; [|discriminate].
     eapply mapM_err_plain; [|exact Hc]. eapply Forall_impl; [|exact H]. intros a Ha ce'. apply Ha.
@@ -718,8 +720,8 @@ Lemma check_conds_err_plain cx env conds ce : mapM (check_cond cx env) conds = E
 Proof.
   apply mapM_err_plain. apply Forall_forall. intros c _ ce'. 
   destruct c as [e l|e l|e l]; cbn [check_cond]; intros H; (apply obind_err in H as [H|(a & _ & H)]; [eapply check_expr_err_plain; eassumption|]);
-    destruct a as [e' r]; cbv beta iota in H; (destruct (negb (er_local r)); [inversion H; reflexivity|]);
-    try (destruct (negb (is_opt_q (er_quant r))); [inversion H; reflexivity|]); discriminate.
+    destruct a as [e' r]; cbv beta iota in H; (destruct (negb (er_local r)); [inversion H; exact I|]);
+    try (destruct (negb (is_opt_q (er_quant r))); [inversion H; exact I|]); discriminate.
 Qed.
 
 Ltac err_step H :=
@@ -747,10 +749,10 @@ Proof.
     err_step Hc; [eapply check_expr_err_plain; eassumption|]. destruct a0 as [? ?]. cbv beta iota in Hc.
     err_step Hc; [eapply check_attrs_err_plain; eassumption|]. discriminate.
   - rewrite check_stmt_scan in Hc. err_step Hc; [eapply check_expr_err_plain; eassumption|]. destruct a as [v' r]. cbv beta iota in Hc.
-    destruct (negb (er_local r)); [inversion Hc; reflexivity|].
+    destruct (negb (er_local r)); [inversion Hc; exact I|].
     err_step Hc; [|destruct a as [[? ?] ?]; discriminate].
     eapply check_seq_err_plain; [|exact Hc]. eapply Forall_impl; [|exact H].
-    intros [[rx body] al] Hbody env0 ce0 Harm. unfold scan_arm in Harm. destruct (nullable_rx cx rx); [inversion Harm; reflexivity|].
+    intros [[rx body] al] Hbody env0 ce0 Harm. unfold scan_arm in Harm. destruct (nullable_rx cx rx); [inversion Harm; exact I|].
     err_step Harm; [|destruct a as [[? ?] ?]; discriminate]. unfold check_block in Harm.
     eapply check_seq_err_plain; [|exact Harm]. exact Hbody.
   - cbn [check_stmt] in Hc. err_step Hc; [eapply check_exprs_err_plain; eassumption|]. discriminate.
@@ -761,8 +763,8 @@ Proof.
     err_step Harm; [|destruct a0 as [[? ?] ?]; discriminate]. unfold check_block in Harm.
     eapply check_seq_err_plain; [|exact Harm]. exact Hbody.
   - rewrite check_stmt_for in Hc. err_step Hc; [eapply check_expr_err_plain; eassumption|]. destruct a as [v' r]. cbv beta iota in Hc.
-    destruct (negb (er_local r)); [inversion Hc; reflexivity|].
-    destruct (negb (is_list_q (er_quant r))); [inversion Hc; reflexivity|].
+    destruct (negb (er_local r)); [inversion Hc; exact I|].
+    destruct (negb (is_list_q (er_quant r))); [inversion Hc; exact I|].
     err_step Hc; [eapply unscoped_check_add_plain; eassumption|].
     err_step Hc; [|destruct a0 as [[? ?] ?]; discriminate]. unfold check_block in Hc.
     eapply check_seq_err_plain; [|exact Hc]. exact H.
@@ -789,7 +791,7 @@ Proof.
   intros Ho. unfold check_stanza. destruct (nth_error (qt_stanza_names q) i) as [names|]; [|discriminate].
   destruct (name_index FULL_MATCH (qt_file_names q)); [|discriminate].
   intros H. err_step H.
-  - apply check_block_err_plain in H. rewrite H. constructor.
+  - apply check_block_err_plain in H. rewrite (plain_names _ H). constructor.
   - destruct a as [[stmts' env'] used]. cbv beta iota in H. err_step H.
     + exfalso. eapply unused_captures_no_err; eassumption.
     + destruct a; [discriminate|]. inversion H; subst. cbn [ce_names]. eapply unused_captures_sorted; eassumption.
@@ -805,9 +807,9 @@ Lemma check_file_names_sorted order q f v l names :
 Proof.
   intros Ho. unfold check_file_with, to_result. destruct (check_file_ck order q f) as [|e| |] eqn:E; try discriminate.
   intros [= <- <- <-]. unfold check_file_ck in E. err_step E.
-  - assert (Hp : plain_error e); [|rewrite Hp; constructor].
+  - assert (Hp : plain_error e); [|rewrite (plain_names _ Hp); constructor].
     revert E. generalize ([[]] : cenv). induction (f_globals f) as [|g gs IH]; cbn [check_global_table]; intros m E; [discriminate|].
-    destruct (varmap_add m (gl_name g) _ false); [eauto|inversion E; reflexivity].
+    destruct (varmap_add m (gl_name g) _ false); [eauto|inversion E; exact I].
   - err_step E; [eapply check_stanzas_err_sorted; eassumption|discriminate].
 Qed.
 
